@@ -598,6 +598,9 @@ def run(ctx):
                  '</xs:complexType></xs:element></xs:schema>')
     for k, (oname, opts, mut) in enumerate(osets[:3]):
         generation_case(ctx, "xsd", {"h.xsd": empty_xsd}, ["h.xsd"], oname, opts, mut, traces, f"empty-names-{k}", must_generate=True)
+    # ... and with the names that ARE the replacement in front of the empty ones (the numbering of duplicates depends on the order)
+    en2 = "".join(f'<xs:enumeration value="{v}"/>' for v in ["value", "", "VALUE", "_", "Value", " ", "value_1"])
+    generation_case(ctx, "xsd", {"h.xsd": empty_xsd.replace(en, en2)}, ["h.xsd"], osets[0][0], osets[0][1], osets[0][2], traces, "empty-names-after", must_generate=True)
     # reference cycles that close through INHERITANCE (a type refers to an extension of itself), directly and over
     # three types, next to an element-only cycle: valid schemas, every structure style has to cope
     ext_cycle = ('<xs:schema xmlns:xs="http://www.w3.org/2001/XMLSchema" targetNamespace="urn:h" xmlns:t="urn:h" elementFormDefault="qualified">'
